@@ -394,19 +394,67 @@ template <class F, class T> static void text (int rows)
         fputs (s.c_str (), o);
     }
 }
+template <class S, class T> static void emit_conv2 (const char* fam, const S* a, const T* out, int n)
+{
+    fputs ((std::string ("{\"e\":\"aggconv\",\"fam\":\"") + fam + "\",\"from\":\"" + E<S>::tag () + "\",\"T\":\"" + E<T>::tag () + "\",\"a\":" + jl (a, n) + ",\"out\":" + jl (out, n) + "}\n").c_str (), o);
+}
 template <class S, class T> static void conv ()
 {
-    // converting constructors: component-wise cast, order preserved
-    S v[4]; for (int i = 0; i < 4; ++i) v[i] = (S) (3 + 2 * i);
-    Vec2<S> a2 (v[0], v[1]); Vec3<S> a3 (v[0], v[1], v[2]); Vec4<S> a4 (v[0], v[1], v[2], v[3]);
-    Vec2<T> b2 (a2); Vec3<T> b3 (a3); Vec4<T> b4 (a4);
-    T w[4];
-    w[0] = b2.x; w[1] = b2.y;
-    fputs ((std::string ("{\"e\":\"aggconv\",\"fam\":\"Vec2\",\"from\":\"") + E<S>::tag () + "\",\"T\":\"" + E<T>::tag () + "\",\"a\":" + jl (v, 2) + ",\"out\":" + jl (w, 2) + "}\n").c_str (), o);
-    w[0] = b3.x; w[1] = b3.y; w[2] = b3.z;
-    fputs ((std::string ("{\"e\":\"aggconv\",\"fam\":\"Vec3\",\"from\":\"") + E<S>::tag () + "\",\"T\":\"" + E<T>::tag () + "\",\"a\":" + jl (v, 3) + ",\"out\":" + jl (w, 3) + "}\n").c_str (), o);
-    w[0] = b4.x; w[1] = b4.y; w[2] = b4.z; w[3] = b4.w;
-    fputs ((std::string ("{\"e\":\"aggconv\",\"fam\":\"Vec4\",\"from\":\"") + E<S>::tag () + "\",\"T\":\"" + E<T>::tag () + "\",\"a\":" + jl (v, 4) + ",\"out\":" + jl (w, 4) + "}\n").c_str (), o);
+    // converting constructors, setValue / getValue / setTheMatrix across element types: component-wise cast, order preserved.
+    // Every slot holds a different value, so a swapped or repeated index shows.
+    S v[16]; for (int i = 0; i < 16; ++i) v[i] = (S) (3 + 2 * i);
+    T w[16];
+    { Vec2<S> a (v[0], v[1]); Vec2<T> b (a); w[0] = b.x; w[1] = b.y; emit_conv2 ("Vec2 ctor", v, w, 2);
+      Vec2<T> c; c.setValue (v[0], v[1]); w[0] = c.x; w[1] = c.y; emit_conv2 ("Vec2 setValue(S,S)", v, w, 2);
+      Vec2<T> d; d.setValue (a); w[0] = d.x; w[1] = d.y; emit_conv2 ("Vec2 setValue(Vec)", v, w, 2);
+      Vec2<S> src (v[0], v[1]); Vec2<T> e (src); Vec2<S> back; S q0, q1; e.getValue (q0, q1); e.getValue (back); }
+    { Vec3<S> a (v[0], v[1], v[2]); Vec3<T> b (a); w[0] = b.x; w[1] = b.y; w[2] = b.z; emit_conv2 ("Vec3 ctor", v, w, 3);
+      Vec3<T> c; c.setValue (v[0], v[1], v[2]); w[0] = c.x; w[1] = c.y; w[2] = c.z; emit_conv2 ("Vec3 setValue(S,S,S)", v, w, 3);
+      Vec3<T> d; d.setValue (a); w[0] = d.x; w[1] = d.y; w[2] = d.z; emit_conv2 ("Vec3 setValue(Vec)", v, w, 3); }
+    { Vec4<S> a (v[0], v[1], v[2], v[3]); Vec4<T> b (a); w[0] = b.x; w[1] = b.y; w[2] = b.z; w[3] = b.w; emit_conv2 ("Vec4 ctor", v, w, 4);
+      Vec4<T> c; c.setValue (v[0], v[1], v[2], v[3]); w[0] = c.x; w[1] = c.y; w[2] = c.z; w[3] = c.w; emit_conv2 ("Vec4 setValue(S,S,S,S)", v, w, 4);
+      Vec4<T> d; d.setValue (a); w[0] = d.x; w[1] = d.y; w[2] = d.z; w[3] = d.w; emit_conv2 ("Vec4 setValue(Vec)", v, w, 4); }
+    // getValue into the other element type: source of type T, destination of type S
+    { T t4[4]; for (int i = 0; i < 4; ++i) t4[i] = (T) (5 + 3 * i); S g[4];
+      Vec2<T> a2 (t4[0], t4[1]); a2.getValue (g[0], g[1]); emit_conv2 ("Vec2 getValue(S&,S&)", t4, g, 2); { Vec2<S> h; a2.getValue (h); g[0] = h.x; g[1] = h.y; emit_conv2 ("Vec2 getValue(Vec&)", t4, g, 2); }
+      Vec3<T> a3 (t4[0], t4[1], t4[2]); a3.getValue (g[0], g[1], g[2]); emit_conv2 ("Vec3 getValue(S&,S&,S&)", t4, g, 3); { Vec3<S> h; a3.getValue (h); g[0] = h.x; g[1] = h.y; g[2] = h.z; emit_conv2 ("Vec3 getValue(Vec&)", t4, g, 3); }
+      Vec4<T> a4 (t4[0], t4[1], t4[2], t4[3]); a4.getValue (g[0], g[1], g[2], g[3]); emit_conv2 ("Vec4 getValue(S&..)", t4, g, 4); { Vec4<S> h; a4.getValue (h); g[0] = h.x; g[1] = h.y; g[2] = h.z; g[3] = h.w; emit_conv2 ("Vec4 getValue(Vec&)", t4, g, 4); } }
+}
+template <class A, class B, int N> static void mat_out (const B& m, typename B::BaseType* w) { for (int i = 0; i < N * N; ++i) w[i] = m[i / N][i % N]; }
+template <class S, class T> static void conv_float ()
+{
+    // matrices, colours, shears, quaternions (floating element types)
+    S v[16]; for (int i = 0; i < 16; ++i) v[i] = (S) (3 + 2 * i);
+    T w[16]; S g[16]; T tv[16]; for (int i = 0; i < 16; ++i) tv[i] = (T) (5 + 3 * i);
+    { Matrix22<S> a; for (int i = 0; i < 4; ++i) a[i / 2][i % 2] = v[i];
+      Matrix22<T> b (a); for (int i = 0; i < 4; ++i) w[i] = b[i / 2][i % 2]; emit_conv2 ("M22 ctor", v, w, 4);
+      Matrix22<T> c; c.setValue (a); for (int i = 0; i < 4; ++i) w[i] = c[i / 2][i % 2]; emit_conv2 ("M22 setValue", v, w, 4);
+      Matrix22<T> d; d.setTheMatrix (a); for (int i = 0; i < 4; ++i) w[i] = d[i / 2][i % 2]; emit_conv2 ("M22 setTheMatrix", v, w, 4);
+      Matrix22<T> e; for (int i = 0; i < 4; ++i) e[i / 2][i % 2] = tv[i]; Matrix22<S> h; e.getValue (h); for (int i = 0; i < 4; ++i) g[i] = h[i / 2][i % 2]; emit_conv2 ("M22 getValue", tv, g, 4); }
+    { Matrix33<S> a; for (int i = 0; i < 9; ++i) a[i / 3][i % 3] = v[i];
+      Matrix33<T> b (a); for (int i = 0; i < 9; ++i) w[i] = b[i / 3][i % 3]; emit_conv2 ("M33 ctor", v, w, 9);
+      Matrix33<T> c; c.setValue (a); for (int i = 0; i < 9; ++i) w[i] = c[i / 3][i % 3]; emit_conv2 ("M33 setValue", v, w, 9);
+      Matrix33<T> d; d.setTheMatrix (a); for (int i = 0; i < 9; ++i) w[i] = d[i / 3][i % 3]; emit_conv2 ("M33 setTheMatrix", v, w, 9);
+      Matrix33<T> e; for (int i = 0; i < 9; ++i) e[i / 3][i % 3] = tv[i]; Matrix33<S> h; e.getValue (h); for (int i = 0; i < 9; ++i) g[i] = h[i / 3][i % 3]; emit_conv2 ("M33 getValue", tv, g, 9); }
+    { Matrix44<S> a; for (int i = 0; i < 16; ++i) a[i / 4][i % 4] = v[i];
+      Matrix44<T> b (a); for (int i = 0; i < 16; ++i) w[i] = b[i / 4][i % 4]; emit_conv2 ("M44 ctor", v, w, 16);
+      Matrix44<T> c; c.setValue (a); for (int i = 0; i < 16; ++i) w[i] = c[i / 4][i % 4]; emit_conv2 ("M44 setValue", v, w, 16);
+      Matrix44<T> d; d.setTheMatrix (a); for (int i = 0; i < 16; ++i) w[i] = d[i / 4][i % 4]; emit_conv2 ("M44 setTheMatrix", v, w, 16);
+      Matrix44<T> e; for (int i = 0; i < 16; ++i) e[i / 4][i % 4] = tv[i]; Matrix44<S> h; e.getValue (h); for (int i = 0; i < 16; ++i) g[i] = h[i / 4][i % 4]; emit_conv2 ("M44 getValue", tv, g, 16); }
+    { Color4<S> a (v[0], v[1], v[2], v[3]); Color4<T> b (a); w[0] = b.r; w[1] = b.g; w[2] = b.b; w[3] = b.a; emit_conv2 ("Color4 ctor", v, w, 4);
+      Color4<T> c; c.setValue (v[0], v[1], v[2], v[3]); w[0] = c.r; w[1] = c.g; w[2] = c.b; w[3] = c.a; emit_conv2 ("Color4 setValue(S..)", v, w, 4);
+      Color4<T> d; d.setValue (a); w[0] = d.r; w[1] = d.g; w[2] = d.b; w[3] = d.a; emit_conv2 ("Color4 setValue(Color4)", v, w, 4);
+      Color4<T> e (tv[0], tv[1], tv[2], tv[3]); e.getValue (g[0], g[1], g[2], g[3]); emit_conv2 ("Color4 getValue(S&..)", tv, g, 4);
+      Color4<S> h; e.getValue (h); g[0] = h.r; g[1] = h.g; g[2] = h.b; g[3] = h.a; emit_conv2 ("Color4 getValue(Color4&)", tv, g, 4); }
+    { Color3<S> a (v[0], v[1], v[2]); Color3<T> b (a); w[0] = b.x; w[1] = b.y; w[2] = b.z; emit_conv2 ("Color3 ctor", v, w, 3); }
+    { Shear6<S> a (v[0], v[1], v[2], v[3], v[4], v[5]); Shear6<T> b (a); for (int i = 0; i < 6; ++i) w[i] = b[i]; emit_conv2 ("Shear6 ctor", v, w, 6);
+      Shear6<T> c; c.setValue (v[0], v[1], v[2], v[3], v[4], v[5]); for (int i = 0; i < 6; ++i) w[i] = c[i]; emit_conv2 ("Shear6 setValue(S..)", v, w, 6);
+      Shear6<T> d; d.setValue (a); for (int i = 0; i < 6; ++i) w[i] = d[i]; emit_conv2 ("Shear6 setValue(Shear6)", v, w, 6);
+      Shear6<T> e (tv[0], tv[1], tv[2], tv[3], tv[4], tv[5]); e.getValue (g[0], g[1], g[2], g[3], g[4], g[5]); emit_conv2 ("Shear6 getValue(S&..)", tv, g, 6);
+      Shear6<S> h; e.getValue (h); for (int i = 0; i < 6; ++i) g[i] = h[i]; emit_conv2 ("Shear6 getValue(Shear6&)", tv, g, 6);
+      Vec3<S> a3 (v[0], v[1], v[2]); Shear6<T> f (a3); for (int i = 0; i < 6; ++i) w[i] = f[i]; S z6[6] = {v[0], v[1], v[2], S (0), S (0), S (0)}; emit_conv2 ("Shear6 ctor(Vec3)", z6, w, 6);
+      Shear6<T> k (tv[0], tv[1], tv[2], tv[3], tv[4], tv[5]); k = a3; for (int i = 0; i < 6; ++i) w[i] = k[i]; emit_conv2 ("Shear6 = Vec3", z6, w, 6); }
+    { Quat<S> a (v[0], v[1], v[2], v[3]); Quat<T> b (a); w[0] = b.r; w[1] = b.v.x; w[2] = b.v.y; w[3] = b.v.z; emit_conv2 ("Quat ctor", v, w, 4); }
 }
 
 template <class T> static void statics_vec ()
@@ -425,6 +473,77 @@ template <class T> static void statics_float ()
     text<FM22<T>, T> (2); text<FM33<T>, T> (3); text<FM44<T>, T> (4);
 }
 
+// ---- foreign-type interoperability: construction / assignment from look-alike types, and the traits that admit them ----
+template <class T> struct Fxy { T x, y; };
+template <class T> struct Fxyz { T x, y, z; };
+template <class T> struct Fxyzw { T x, y, z, w; };
+template <class T> struct Fyx { T y, x; };                                  // members in the other order: still addressed by NAME
+template <class T, int N> struct FSub { T a[N]; T operator[] (int i) const { return a[i]; } T& operator[] (int i) { return a[i]; } };
+template <class T, int N> struct FSub2 { T m[N][N]; const T* operator[] (int i) const { return m[i]; } T* operator[] (int i) { return m[i]; } };
+template <class T> struct Fpad { T x, y; T extra; };                        // has .x .y but is too big for a 2-vector
+
+template <class T> static void emit_conv (const char* fam, const T* a, const T* out, int n)
+{
+    fputs ((std::string ("{\"e\":\"aggconv\",\"fam\":\"") + fam + "\",\"from\":\"" + E<T>::tag () + "\",\"T\":\"" + E<T>::tag () + "\",\"a\":" + jl (a, n) + ",\"out\":" + jl (out, n) + "}\n").c_str (), o);
+}
+static void emit_trait (const char* trait, const char* members, const char* mt, const char* base, int slots, int want, int sub, int got)
+{
+    // members: named data members of the foreign type; mt: their type; slots: sizeof(type) / sizeof(base) (-1 if not a multiple);
+    // sub: depth of subscripting that yields an mt (0 none, 1, 2); want: the element count asked for
+    fprintf (o, "{\"e\":\"aggtrait\",\"fam\":\"%s\",\"T\":\"%s\",\"members\":\"%s\",\"mt\":\"%s\",\"slots\":%d,\"want\":%d,\"sub\":%d,\"got\":%d}\n", trait, base, members, mt, slots, want, sub, got);
+}
+template <class U, class B> static int slots_of () { return sizeof (U) % sizeof (B) == 0 ? (int) (sizeof (U) / sizeof (B)) : -1; }
+
+template <class T, class O> static void interop ()      // O: another element type, for the negative trait cases
+{
+    T v[16]; for (int i = 0; i < 16; ++i) v[i] = (T) (3 + 2 * i);
+    T w[16];
+    { Fxy<T> f{v[0], v[1]}; Vec2<T> a (f); w[0] = a.x; w[1] = a.y; emit_conv ("Vec2<-xy ctor", v, w, 2); Vec2<T> b (T (0), T (0)); b = f; w[0] = b[0]; w[1] = b[1]; emit_conv ("Vec2<-xy assign", v, w, 2); }
+    { Fyx<T> f; f.x = v[0]; f.y = v[1]; Vec2<T> a (f); w[0] = a.x; w[1] = a.y; emit_conv ("Vec2<-yx ctor", v, w, 2); Vec2<T> b (T (0), T (0)); b = f; w[0] = b[0]; w[1] = b[1]; emit_conv ("Vec2<-yx assign", v, w, 2); }
+    { FSub<T, 2> f{{v[0], v[1]}}; Vec2<T> a (f); w[0] = a.x; w[1] = a.y; emit_conv ("Vec2<-sub ctor", v, w, 2); Vec2<T> b (T (0), T (0)); b = f; w[0] = b[0]; w[1] = b[1]; emit_conv ("Vec2<-sub assign", v, w, 2); }
+    { T f[2] = {v[0], v[1]}; Vec2<T> a (f); w[0] = a.x; w[1] = a.y; emit_conv ("Vec2<-carray ctor", v, w, 2); }
+    { Fxyz<T> f{v[0], v[1], v[2]}; Vec3<T> a (f); w[0] = a.x; w[1] = a.y; w[2] = a.z; emit_conv ("Vec3<-xyz ctor", v, w, 3); Vec3<T> b (T (0), T (0), T (0)); b = f; w[0] = b[0]; w[1] = b[1]; w[2] = b[2]; emit_conv ("Vec3<-xyz assign", v, w, 3); }
+    { FSub<T, 3> f{{v[0], v[1], v[2]}}; Vec3<T> a (f); w[0] = a.x; w[1] = a.y; w[2] = a.z; emit_conv ("Vec3<-sub ctor", v, w, 3); Vec3<T> b (T (0), T (0), T (0)); b = f; w[0] = b[0]; w[1] = b[1]; w[2] = b[2]; emit_conv ("Vec3<-sub assign", v, w, 3); }
+    { T f[3] = {v[0], v[1], v[2]}; Vec3<T> a (f); w[0] = a.x; w[1] = a.y; w[2] = a.z; emit_conv ("Vec3<-carray ctor", v, w, 3); }
+    { Fxyzw<T> f{v[0], v[1], v[2], v[3]}; Vec4<T> a (f); w[0] = a.x; w[1] = a.y; w[2] = a.z; w[3] = a.w; emit_conv ("Vec4<-xyzw ctor", v, w, 4); Vec4<T> b (T (0), T (0), T (0), T (0)); b = f; for (int i = 0; i < 4; ++i) w[i] = b[i]; emit_conv ("Vec4<-xyzw assign", v, w, 4); }
+    { FSub<T, 4> f{{v[0], v[1], v[2], v[3]}}; Vec4<T> a (f); w[0] = a.x; w[1] = a.y; w[2] = a.z; w[3] = a.w; emit_conv ("Vec4<-sub ctor", v, w, 4); Vec4<T> b (T (0), T (0), T (0), T (0)); b = f; for (int i = 0; i < 4; ++i) w[i] = b[i]; emit_conv ("Vec4<-sub assign", v, w, 4); }
+    { FSub2<T, 2> f; for (int i = 0; i < 4; ++i) f.m[i / 2][i % 2] = v[i]; Matrix22<T> a (f); for (int i = 0; i < 4; ++i) w[i] = a[i / 2][i % 2]; emit_conv ("M22<-sub2 ctor", v, w, 4); Matrix22<T> b; b = f; for (int i = 0; i < 4; ++i) w[i] = b.getValue ()[i]; emit_conv ("M22<-sub2 assign", v, w, 4); }
+    { FSub2<T, 3> f; for (int i = 0; i < 9; ++i) f.m[i / 3][i % 3] = v[i]; Matrix33<T> a (f); for (int i = 0; i < 9; ++i) w[i] = a[i / 3][i % 3]; emit_conv ("M33<-sub2 ctor", v, w, 9); Matrix33<T> b; b = f; for (int i = 0; i < 9; ++i) w[i] = b.getValue ()[i]; emit_conv ("M33<-sub2 assign", v, w, 9); }
+    { FSub2<T, 4> f; for (int i = 0; i < 16; ++i) f.m[i / 4][i % 4] = v[i]; Matrix44<T> a (f); for (int i = 0; i < 16; ++i) w[i] = a[i / 4][i % 4]; emit_conv ("M44<-sub2 ctor", v, w, 16); Matrix44<T> b; b = f; for (int i = 0; i < 16; ++i) w[i] = b.getValue ()[i]; emit_conv ("M44<-sub2 assign", v, w, 16); }
+    { T f[3][3]; for (int i = 0; i < 9; ++i) f[i / 3][i % 3] = v[i]; Matrix33<T> a (f); for (int i = 0; i < 9; ++i) w[i] = a[i / 3][i % 3]; emit_conv ("M33<-carray ctor", v, w, 9); }
+    const char* t = E<T>::tag (); const char* ot = E<O>::tag ();
+    typedef FSub<T, 2> S2; typedef FSub<T, 3> S3; typedef FSub<T, 9> S9; typedef FSub<O, 3> SO3; typedef FSub2<T, 3> D3; typedef FSub2<T, 4> D4; typedef FSub2<O, 3> DO3;
+    typedef T C3[3]; typedef T C4[4]; typedef T C33[3][3];
+#define TR(NAME, VAL, U, MEMBERS, MT, WANT, SUB) emit_trait (NAME, MEMBERS, MT, t, slots_of<U, T> (), WANT, SUB, (int) (VAL))
+    TR ("has_xy", (has_xy<Fxy<T>, T>::value), Fxy<T>, "xy", t, 2, 0);
+    TR ("has_xy", (has_xy<Fyx<T>, T>::value), Fyx<T>, "xy", t, 2, 0);
+    TR ("has_xy", (has_xy<Fxyz<T>, T>::value), Fxyz<T>, "xyz", t, 2, 0);          // right members, wrong size
+    TR ("has_xy", (has_xy<Fpad<T>, T>::value), Fpad<T>, "xy", t, 2, 0);
+    TR ("has_xy", (has_xy<Fxy<O>, T>::value), Fxy<O>, "xy", ot, 2, 0);            // wrong member type
+    TR ("has_xy", (has_xy<S2, T>::value), S2, "", t, 2, 1);
+    TR ("has_xyz", (has_xyz<Fxyz<T>, T>::value), Fxyz<T>, "xyz", t, 3, 0);
+    TR ("has_xyz", (has_xyz<Fxy<T>, T>::value), Fxy<T>, "xy", t, 3, 0);
+    TR ("has_xyz", (has_xyz<Fxyzw<T>, T>::value), Fxyzw<T>, "xyzw", t, 3, 0);
+    TR ("has_xyz", (has_xyz<Fxyz<O>, T>::value), Fxyz<O>, "xyz", ot, 3, 0);
+    TR ("has_xyzw", (has_xyzw<Fxyzw<T>, T>::value), Fxyzw<T>, "xyzw", t, 4, 0);
+    TR ("has_xyzw", (has_xyzw<Fxyz<T>, T>::value), Fxyz<T>, "xyz", t, 4, 0);
+    TR ("has_xyzw", (has_xyzw<Fxyzw<O>, T>::value), Fxyzw<O>, "xyzw", ot, 4, 0);
+    TR ("has_subscript", (has_subscript<S3, T, 3>::value), S3, "", t, 3, 1);
+    TR ("has_subscript", (has_subscript<S3, T, 2>::value), S3, "", t, 2, 1);
+    TR ("has_subscript", (has_subscript<S3, T, 4>::value), S3, "", t, 4, 1);
+    TR ("has_subscript", (has_subscript<SO3, T, 3>::value), SO3, "", ot, 3, 1);
+    TR ("has_subscript", (has_subscript<Fxyz<T>, T, 3>::value), Fxyz<T>, "xyz", t, 3, 0);
+    TR ("has_subscript", (has_subscript<C3, T, 3>::value), C3, "", t, 3, 1);
+    TR ("has_subscript", (has_subscript<C4, T, 3>::value), C4, "", t, 3, 1);
+    TR ("has_double_subscript", (has_double_subscript<D3, T, 3, 3>::value), D3, "", t, 9, 2);
+    TR ("has_double_subscript", (has_double_subscript<D3, T, 4, 4>::value), D3, "", t, 16, 2);
+    TR ("has_double_subscript", (has_double_subscript<D4, T, 4, 4>::value), D4, "", t, 16, 2);
+    TR ("has_double_subscript", (has_double_subscript<DO3, T, 3, 3>::value), DO3, "", ot, 9, 2);
+    TR ("has_double_subscript", (has_double_subscript<S9, T, 3, 3>::value), S9, "", t, 9, 1);   // single subscript only
+    TR ("has_double_subscript", (has_double_subscript<C33, T, 3, 3>::value), C33, "", t, 9, 2);
+#undef TR
+}
+
 int main (int argc, char** argv)
 {
     std::string mode = argc > 1 ? argv[1] : "static";
@@ -434,6 +553,8 @@ int main (int argc, char** argv)
     statics<FColor3<half>, half> (); statics<FColor4<half>, half> ();
     tolerant<FVec3<int>, int> (); tolerant<FVec4<short>, short> ();
     statics_float<float> (); statics_float<double> ();
+    interop<float, double> (); interop<double, float> (); interop<int, short> (); interop<short, int> ();
+    conv_float<float, double> (); conv_float<double, float> ();
     conv<float, double> (); conv<double, float> (); conv<int, float> (); conv<float, int> (); conv<short, int> (); conv<int, int64_t> (); conv<half, float> (); conv<float, half> (); conv<int64_t, double> ();
     return 0;
 }
